@@ -141,6 +141,8 @@ def augment(
             "state_list and action_list can only be set for TabularMarkovDecisionProcess"
     class AugmentedMDP(mdp.__class__):
         def __init__(self): pass
+    # the discount rate is usually an instance attribute of `mdp`, which the new instance would otherwise lose
+    AugmentedMDP.discount_rate = mdp.discount_rate
     if initial_state_dist is not None:
         AugmentedMDP.initial_state_dist = staticmethod(initial_state_dist)
     else:
